@@ -1,4 +1,5 @@
 import RemocModel.Conn.Model
+import RemocModel.Conn.Waits
 import Driver.Util
 /-
 Driver for the fail-stop correspondence (C06): traces of a workload on two real endpoints with a
@@ -6,11 +7,15 @@ transport fault scheduled at one item index (sink error, stream error, end of st
 one-directional or two-directional stall), a virtual clock, and API calls pending at and started after
 the fault.  Checks on the real observations (`FAIL c06`):
   - after a fault both dispatchers have terminated with an error, within `timeout_A + timeout_B` of
-    virtual time after the fault;
+    virtual time after the fault, the one that is shown a sink / stream error or the end of the stream at once;
   - no API call is pending at the end (nothing hangs);
   - per port direction the messages received are, in order and byte for byte, the first messages sent;
   - without a fault nothing terminates, however long the connection is idle, and traffic still flows.
-and compares the class of each `run` result with `Remoc.Conn.runLoop` on the observed fault (`DIFF`).
+  - every call of an endpoint that returns after that endpoint's dispatcher has ended returns an error
+    (or what had been queued for it before: data, a request, an answer, a clean end);
+and compares the class of each `run` result with `Remoc.Conn.runLoop` on the observed fault, and the error
+class of every call that was pending at or started after the end of its dispatcher with the table of the
+wait/link model (`Remoc.Conn.ApiOp.afterTerm`, `okAfterTerm`; theorem `api_after_termination`) (`DIFF`).
 Output: `END <trace> events=<n> replay=<ok|mismatch> c06=<ok|FAIL> fired=<0|1>`.
 -/
 open Driver Remoc.Conn
@@ -45,6 +50,12 @@ structure FSim where
   lastTime : Nat := 0
   aliveMarker : Bool := false
   runBeforeAlive : Bool := false
+  /-- call id ↦ (script word of the operation, side) -/
+  calls : AL (String × String) := []
+  /-- sides whose dispatcher has ended with an error -/
+  dead : List String := []
+  /-- results compared with the classification table -/
+  tableChecked : Nat := 0
   replayOk : Bool := true
   c06 : Bool := true
   out : List String := []
@@ -61,6 +72,53 @@ def resOfText (t : String) : Res :=
 
 def evOfKind (k : String) : Ev :=
   if k == "sink" then .sinkError else if k == "stream" then .streamError else if k == "eof" then .streamClosed else .timeout
+
+/-- script word ↦ API operation of the wait/link model -/
+def apiOfWord (w : String) : Option ApiOp :=
+  if w == "send" then some .send else if w == "chunks" then some .chunkSend
+  else if w == "trysend" then some .trySend else if w == "pconnect" then some .portConnect
+  else if w == "closed" then some .senderClosed
+  else if w == "recv" || w == "recvany" then some .recv else if w == "recvchunk" then some .recvChunk
+  else if w == "close" then some .recvClose
+  else if w == "connect" then some .clientConnect else if w == "pconnect-response" then some .connectResponse
+  else if w == "accept" then some .accept else if w == "inspect" then some .inspect
+  else if w == "reqaccept" then some .reqAccept else if w == "reqreject" then some .reqReject
+  else none
+
+/-- result text of a `ret` line ↦ outcome of the model -/
+def resOfRet (op : ApiOp) (res : List String) : Option WaitRes :=
+  match res with
+  | "err" :: "chmux" :: _ =>
+    some (.err (match op with
+      | .recv | .recvChunk => .recvChMux
+      | .clientConnect | .connectResponse => .connectChMux
+      | .accept | .inspect | .reqAccept => .listenerMux
+      | _ => .sendChMux))
+  | "err" :: "closed" :: g :: _ => some (.err (.sendClosed (g == "gracefully=1")))
+  | "err" :: "rejected" :: _ => some (.err .connectRejected)
+  | "err" :: _ => none                      -- not a class of the fail-stop table (ports exhausted, max data, cancelled …)
+  | "closed" :: _ => some .unit
+  | "none" :: _ => some .endOfStream
+  | "ok" :: _ => if op == .recvClose || op == .reqReject then some .unit else some .ok
+  | "data" :: _ | "chunks" :: _ | "chunk" :: _ | "requests" :: _ | "req" :: _ => some .ok
+  | "dropped" :: _ => some .ok
+  | _ => none
+
+def lastLink (op : ApiOp) : LinkKind := (op.waits.getLast?.map (·.1)).getD .evq
+
+/-- is the real outcome of a call that ended after its dispatcher one the model allows?
+`some true`: yes; `some false`: no, and it is not even an error (property violation); `none`: an error
+of another class than the model's table (correspondence mismatch) -/
+def judgeAfterTerm (op : ApiOp) (r : WaitRes) : Option Bool :=
+  let exp := op.afterTerm false
+  if r == exp || r == op.afterTerm true then some true
+  else match r with
+    | .err _ => none
+    | _ =>
+      -- values queued / answered before the failure are still handed out (value-first links)
+      if okAfterTerm (lastLink op) r then some true
+      -- a send whose last chunk had been queued before the failure may complete
+      else some false
 
 def isPrefixS : List String → List String → Bool
   | [], _ => true
@@ -96,7 +154,11 @@ def FSim.finish (s : FSim) (line : Nat) (pendingEnd : String) (ra rb : String) :
       let ta := (s.timeouts.get? "A").getD 0
       let tb := (s.timeouts.get? "B").getD 0
       match s.runTime.get? x with
-      | some t => if t > tf + ta + tb + 10 then
+      | some t =>
+        -- the endpoint that is shown an error (not a silent stall) ends at once, not at its timeout
+        let s := if x == obs && (kind == "sink" || kind == "stream" || kind == "eof") && t > tf + 5 then
+            s.fail line s!"dispatcher {x} was shown the {kind} fault at t={tf} and ended only at t={t}: not as soon as it could observe the fault" else s
+        if t > tf + ta + tb + 10 then
           s.fail line s!"dispatcher {x} terminated {t - tf} ms after the fault, more than timeout_A + timeout_B = {ta + tb} ms" else s
       | none => s) s
 
@@ -107,7 +169,7 @@ structure FAcc where
 def finishTrace (s : FSim) : IO Unit := do
   if s.name != "" then
     for l in s.out do IO.println l
-    IO.println s!"END {s.name} events={s.events} replay={if s.replayOk then "ok" else "mismatch"} c06={if s.c06 then "ok" else "FAIL"} fired={if s.fault.isSome then 1 else 0}"
+    IO.println s!"END {s.name} events={s.events} replay={if s.replayOk then "ok" else "mismatch"} c06={if s.c06 then "ok" else "FAIL"} fired={if s.fault.isSome then 1 else 0} table={s.tableChecked}"
 
 def stepLine (a : FAcc) (n : Nat) (line : String) : IO FAcc := do
   let ws := words line
@@ -123,13 +185,15 @@ def stepLine (a : FAcc) (n : Nat) (line : String) : IO FAcc := do
     return { a with sim := { s with fault := some (obs, kind, (kvNat rest "t").getD 0) } }
   | "run" :: x :: res =>
     let r := " ".intercalate res
-    let s := { s with runRes := s.runRes.set x r, runBeforeAlive := s.runBeforeAlive || !s.aliveMarker }
+    let s := { s with runRes := s.runRes.set x r, runBeforeAlive := s.runBeforeAlive || !s.aliveMarker,
+                      dead := if r.startsWith "ok" then s.dead else s.dead ++ [x] }
     return { a with sim := s }
   | ["runtime", x, t] => return { a with sim := { s with runTime := s.runTime.set x (t.toNat?.getD 0) } }
-  | ["op", "send", _, x, port, hx] =>
+  | ["op", "send", k, x, port, hx] =>
     let key := port ++ ">" ++ x
-    return { a with sim := { s with sent := s.sent.set key (((s.sent.get? key).getD []) ++ [hx]) } }
-  | "op" :: "chunks" :: _ :: x :: port :: parts :: _ =>
+    return { a with sim := { s with calls := s.calls.set k ("send", x), sent := s.sent.set key (((s.sent.get? key).getD []) ++ [hx]) } }
+  | "op" :: "chunks" :: k :: x :: port :: parts :: _ =>
+    let s := { s with calls := s.calls.set k ("chunks", x) }
     let key := port ++ ">" ++ x
     let whole := if parts == "none" then "-" else
       let j := "".intercalate ((parts.splitOn ",").filter (· != "-"))
@@ -137,13 +201,42 @@ def stepLine (a : FAcc) (n : Nat) (line : String) : IO FAcc := do
     return { a with sim := { s with sent := s.sent.set key (((s.sent.get? key).getD []) ++ [whole]) } }
   | [opk, "recvany", k, x, port] =>
     if opk == "op" || opk == "opd" then
-      return { a with sim := { s with recvCalls := s.recvCalls.set k (port ++ ">" ++ other x) } }
+      return { a with sim := { s with calls := s.calls.set k ("recvany", x), recvCalls := s.recvCalls.set k (port ++ ">" ++ other x) } }
     else return { a with sim := s }
   | [opk, "recvchunk", k, x, port] =>
     if opk == "op" || opk == "opd" then
-      return { a with sim := { s with recvCalls := s.recvCalls.set k (port ++ ">" ++ other x) } }
+      return { a with sim := { s with calls := s.calls.set k ("recvchunk", x), recvCalls := s.recvCalls.set k (port ++ ">" ++ other x) } }
     else return { a with sim := s }
   | "ret" :: k :: res =>
+    -- classification of calls that end after their dispatcher
+    let call : Option (String × String) := match s.calls.get? k with
+      | some c => some c
+      | none =>
+        -- `k.i`: the i-th connect of a `pconnect k` (response task of `Sender::connect`)
+        let parent := ".".intercalate ((k.splitOn ".").dropLast)
+        match s.calls.get? parent with
+        | some ("pconnect", x) => some ("pconnect-response", x)
+        | _ => none
+    let s := match call with
+      | some (w, x) =>
+        -- `err no-such-handle` / `no-client` / `no-listener`: the script named an object that never came to
+        -- exist (connection cut inside the handshake); no API call was made
+        let harnessOnly := match res with
+          | "err" :: c :: _ => c.startsWith "no-"
+          | _ => false
+        if !s.dead.contains x || harnessOnly then s else
+        match apiOfWord w with
+        | none => s
+        | some op =>
+          let s := { s with tableChecked := s.tableChecked + 1 }
+          match resOfRet op res with
+          | none => s.diff n s!"call {k} ({w} on {x}) ended after its dispatcher with '{" ".intercalate res}', which is not a result of the fail-stop table (expected {repr (op.afterTerm false)})"
+          | some r =>
+            match judgeAfterTerm op r with
+            | some true => s
+            | some false => s.fail n s!"call {k} ({w} on {x}) ended after its dispatcher had terminated with '{" ".intercalate res}' instead of an error (model: {repr (op.afterTerm false)})"
+            | none => s.diff n s!"call {k} ({w} on {x}) ended after its dispatcher with '{" ".intercalate res}', the model's table says {repr (op.afterTerm false)}"
+      | none => s
     match s.recvCalls.get? k with
     | none => return { a with sim := s }
     | some key =>
@@ -171,6 +264,9 @@ def stepLine (a : FAcc) (n : Nat) (line : String) : IO FAcc := do
     let delivered : Nat := s.recvd.foldl (fun (acc : Nat) (p : String × List String) => acc + p.2.length) 0
     let s := if delivered < 2 then s.fail n s!"traffic after the idle periods did not arrive ({delivered} of 2 messages)" else s
     return { a with sim := s }
+  | "op" :: w :: k :: x :: _ =>
+    if (apiOfWord w).isSome && (x == "A" || x == "B") then return { a with sim := { s with calls := s.calls.set k (w, x) } }
+    else return { a with sim := s }
   | ["time", t] => return { a with sim := { s with lastTime := t.toNat?.getD s.lastTime } }
   | "end" :: rest =>
     let p := (kvGet rest "pending").getD "-"
